@@ -263,7 +263,11 @@ func c04ScriptedDownload(e *Env) {
 	}
 	if !call.Done() {
 		if noDeadline && !clean {
-			e.Probe("download.noDeadlineFaultyRunAbandoned") // a caller that sets no deadline waits as long as it takes
+			// "An exchange that cannot complete ends with an error or timeout - never by hanging": a caller that sets no
+			// deadline has only the library to tell it that the transfer is dead (a block or the request for it was lost,
+			// the transfer timeout has passed, the housekeeping has dropped the transfer: 70 s ago at least)
+			e.Probe("download.noDeadlineFaultyRunAbandoned")
+			e.Violate("C04.R5", "transfer-hangs:no-deadline:the-waiting-call-is-never-told", "the download (context without a deadline) has neither completed nor failed 70 s - many transfer timeouts - after the last event of a run with faults")
 			return
 		}
 		if noDeadline {
@@ -686,5 +690,76 @@ func c04ScriptedFetch(e *Env) {
 	}
 	if bytes.Equal(assembled, body) {
 		e.Probe("transfer.completed")
+	}
+}
+
+// c04ScriptedClientUpload: the library's client uploads a body of several blocks with a context that has no deadline.
+// The scripted peer acknowledges block 0 (2.31) and then goes away: the request for... the next block is written - once;
+// later blocks of an upload are confirmable messages that are never re-sent and never given up. Nothing can complete
+// this exchange; it has to end with an error.
+func c04ScriptedClientUpload(e *Env) {
+	t := e.Tape
+	tr := []string{TrUDP, TrDTLS}[t.Choose(2)]
+	szx := blockwise.SZX(t.Choose(2))
+	bs := 16 << uint(szx)
+	router := mux.NewRouter()
+	router.DefaultHandle(mux.HandlerFunc(func(mux.ResponseWriter, *mux.Message) {}))
+	w := c04World(e, tr, szx, router)
+	if w == nil {
+		return
+	}
+	body := Body(401, 2*bs+5)
+	lostAt := 1 + t.Choose(2) // the block whose answer never comes
+	var blocks []*WMsg
+	w.OnRecv = func(m *WMsg) {
+		if m.Code != 2 {
+			return
+		}
+		b1, ok := m.OptUint(OptBlock1)
+		if !ok {
+			return
+		}
+		blocks = append(blocks, m)
+		if num := int(b1 >> 4); num < lostAt {
+			w.Queue(&WMsg{Type: TACK, Code: 0x5f, MID: m.MID, Token: m.Token, Opts: []WOpt{UintOpt(OptBlock1, b1)}}, fmt.Sprintf("continue-%d", num))
+		}
+	}
+	e.Logf("cfg transport=%s block=%d body=%d the peer goes away before it answers block %d", tr, bs, len(body), lostAt)
+	e.NonTrivial()
+	e.Probe("clientUpload.peerGoesAway")
+	call := e.NewCall("upload", 0, nil, 0)
+	e.Start(call, func(ctx context.Context) (*pool.Message, error) {
+		return w.API.(mux.Conn).Post(ctx, "/up", message.AppOctets, bytes.NewReader(body))
+	}, w.API.ReleaseMessage)
+	for i := 0; i < 6; i++ {
+		e.Wait()
+		w.Pump()
+		for _, it := range append([]*OutItem(nil), w.Outbox...) {
+			w.Emit(it, false)
+			e.Wait()
+			w.Pump()
+		}
+		w.prune()
+	}
+	for i := 0; i < 9 && !call.Done(); i++ {
+		e.Sleep(10 * time.Second)
+		w.Tick(time.Now())
+		e.Wait()
+		w.Pump()
+	}
+	if !call.Done() {
+		copies := 0
+		for _, m := range blocks {
+			if b1, _ := m.OptUint(OptBlock1); int(b1>>4) == lostAt {
+				copies++
+			}
+		}
+		e.Violate("C04.R5", "transfer-hangs:no-deadline:the-waiting-call-is-never-told", "the upload (context without a deadline) has neither completed nor failed 90 s after the peer went away; block %d was written %d time(s)", lostAt, copies)
+		e.CancelCall(call)
+		e.Wait()
+		return
+	}
+	if _, err := call.Result(); err == nil {
+		e.Violate("C04.R2", "success-without-delivery:scripted-client-upload", "the peer never got past block %d and the upload reports success", lostAt)
 	}
 }
